@@ -231,6 +231,7 @@ func runC19Case(c c19Case) (msg, key string) {
 	} else {
 		p = mpb.New(mpb.WithOutput(&out), mpb.WithWidth(60))
 	}
+	speedAvg, etaAvg := &fixedAvg{}, &fixedAvg{}
 	nrec := 1 + c.Wrap%3 // 1..3 moving-average decorators on the bar
 	recs := make([]*recorder, nrec)
 	var opts []mpb.BarOption
@@ -242,7 +243,14 @@ func runC19Case(c c19Case) (msg, key string) {
 			recs[i].WC.Init()
 			ds = append(ds, wrapDeep(recs[i], (c.Wrap+i)%4))
 		}
-		opts = append(opts, mpb.AppendDecorators(ds[:1]...))
+		// plus the library's own moving-average decorators over recording averages:
+		// what they hand to the estimator is the time per byte of every transfer, the
+		// time of zero-byte transfers before it included
+		app := append([]decor.Decorator{}, ds[:1]...)
+		app = append(app,
+			wrapDeep(decor.MovingAverageSpeed(0, "%.0f", speedAvg), c.Wrap%3),
+			wrapDeep(decor.MovingAverageETA(decor.ET_STYLE_GO, etaAvg, nil), (c.Wrap+1)%3))
+		opts = append(opts, mpb.AppendDecorators(app...))
 		if len(ds) > 1 {
 			opts = append(opts, mpb.PrependDecorators(ds[1:]...))
 		}
@@ -470,6 +478,47 @@ func runC19Case(c c19Case) (msg, key string) {
 			if got[i].D < calls[i].injected || got[i].D > calls[i].measured {
 				return fmt.Sprintf("sample %d carries duration %v, the transfer took between %v (injected) and %v (measured around the proxy call)", i, time.Duration(got[i].D), time.Duration(calls[i].injected), time.Duration(calls[i].measured)), "sampledur:" + shape
 			}
+		}
+	}
+	// the library's speed / ETA decorators: one value per transfer that moved bytes,
+	// value x bytes = the time since the previous such transfer (zero-byte transfers
+	// carried in), bounded by the injected and the measured durations
+	for name, av := range map[string]*fixedAvg{"MovingAverageSpeed": speedAvg, "MovingAverageETA": etaAvg} {
+		if !c.Ewma {
+			break
+		}
+		added := av.samples()
+		must := len(calls)
+		if c.Total > 0 {
+			var acc int64
+			for i, cl := range calls {
+				acc += cl.n
+				if acc >= c.Total {
+					must = i + 1
+					break
+				}
+			}
+		}
+		k := 0
+		var inj, meas int64
+		for i, cl := range calls {
+			inj += cl.injected
+			meas += cl.measured
+			if cl.n <= 0 {
+				continue
+			}
+			if k >= len(added) {
+				if i < must {
+					return fmt.Sprintf("%s received %d values from the library for the first %d transfers, of which more moved bytes", name, len(added), i+1), "libavg-count:" + shape
+				}
+				break
+			}
+			took := added[k] * float64(cl.n)
+			if took < float64(inj)*(1-1e-9)-1 || took > float64(meas)*(1+1e-9)+1 {
+				return fmt.Sprintf("%s: value %d handed to the estimator is %v ns per byte for a transfer of %d bytes, i.e. %v in all; since the previous transfer that moved bytes between %v (injected) and %v (measured around the proxy calls) went by, zero-byte transfers included", name, k, added[k], cl.n, time.Duration(took), time.Duration(inj), time.Duration(meas)), "libavg-time:" + shape
+			}
+			k++
+			inj, meas = 0, 0
 		}
 	}
 	return "", ""
